@@ -40,6 +40,27 @@ theorem getItem_eq {arr idx v : Val} (h : FillIn.getItem arr idx = .ok v) : ∃ 
       · obtain ⟨_, _, h⟩ := bind_ok h
         simp [throw_eq] at h
 
+/-- however the visitors end a qubit whose index was a constant, the result is `NamedQubit(some name, nf, ni)` having
+passed the constructor's checks -/
+theorem constIndexQubit_mk {rv : Bool} {name : String} {src idx nf ni v : Val}
+    (h : constIndexQubit rv name src idx nf ni = .ok v) : ∃ n', mkQubit n' nf ni = .ok v := by
+  unfold constIndexQubit at h
+  split at h
+  · exact ⟨_, h⟩
+  · split at h
+    · split at h
+      · exact ⟨_, h⟩
+      · unfold FillIn.getItem at h
+        split at h
+        · simp [throw_eq] at h
+        · split at h
+          · simp [throw_eq] at h
+          · split at h
+            · exact ⟨_, h⟩
+            · obtain ⟨_, _, h⟩ := bind_ok h
+              simp [throw_eq] at h
+    · simp [throw_eq] at h
+
 theorem mkRegister_eq {n : String} {size v : Val} (h : mkRegister n size = .ok v) : v = .regF n size := by
   unfold mkRegister at h
   split at h
@@ -115,9 +136,8 @@ theorem letVal_none {ov : List (String × Num)} {rv : Bool} {v : Val} (h : letVa
     obtain ⟨nf, _, h⟩ := bind_ok h
     split at h
     · obtain ⟨ni, _, h⟩ := bind_ok h
-      split at h
-      · cases mkQubit_eq h
-      · obtain ⟨_, hq⟩ := getItem_eq h; cases hq
+      obtain ⟨_, hq⟩ := constIndexQubit_mk h
+      cases mkQubit_eq hq
     · cases mkQubit_eq h
   | regF n size =>
     simp only [letVal] at h
@@ -176,10 +196,8 @@ theorem letVal_sem {ov : List (String × Num)} : ∀ (v : Val) (rv : Bool) (v' :
     split at h
     · obtain ⟨ni, hni, h⟩ := bind_ok h
       have hN := resolveConstant_evalNum b hni
-      split at h
-      · exact key _ _ hN (mkQubit_eq h)
-      · obtain ⟨n', hq⟩ := getItem_eq h
-        exact key _ _ hN hq
+      obtain ⟨n', hq⟩ := constIndexQubit_mk h
+      exact key _ _ hN (mkQubit_eq hq)
     · rename_i hc
       exact key _ _ (evalNum_nonconst _ _ b (by simpa using hc)) (mkQubit_eq h)
   | regF n size _ =>
@@ -324,7 +342,9 @@ theorem Rel_evalStmts (md : MacroDen) : ∀ (l l' : List Stmt) (b : Bind), RelLi
   | [], _ :: _, _, h, _, _ | _ :: _, [], _, h, _, _ => by simp [RelList] at h
 end
 
-theorem denoteMacros_rel : ∀ {ms ms' : List Macro}, List.Forall₂ (MacroRel F G) ms ms' →
+theorem denoteMacros_rel {Fm : Macro → Val → M Val}
+    (hFm : ∀ m v v' b, P v → Fm m v = .ok v' → evalArg ρ' b v' = evalArg ρ b v ∧ evalNum ρ' b v' = evalNum ρ b v) :
+    ∀ {ms ms' : List Macro}, List.Forall₂ (fun m m' => MacroRel (Fm m) G m m') ms ms' →
     (∀ m ∈ ms, BlocksOK m.body ∧ AllVals P m.body) → ∀ md : MacroDen,
     ms'.foldl (fun md m => md ++ [(m.name, (m.params.length,
       fun args => evalStmt ρ' md (m.params.map (·.1) |>.zip args) m.body))]) md =
@@ -342,16 +362,18 @@ theorem denoteMacros_rel : ∀ {ms ms' : List Macro}, List.Forall₂ (MacroRel F
         (fun args => evalStmt ρ md (m.params.map (·.1) |>.zip args) m.body) := by
       funext args
       rw [hp, List.map_map]
-      exact Rel_evalStmt hF hG md m.body m'.body _ hb hB hP
+      exact Rel_evalStmt (hFm m) hG md m.body m'.body _ hb hB hP
     rw [hn, e, hp, List.length_map]
     exact ih (fun x hx => hok x (by simp [hx])) _
 
 /-- the rebuilt circuit means what the original means (given how the visitors treat values) -/
-theorem Rebuilt_meaning {c c' : Circuit} {regs : List Val} {body : List Stmt} (hr : Rebuilt F G c regs body c')
+theorem Rebuilt_meaning {Fm : Macro → Val → M Val}
+    (hFm : ∀ m v v' b, P v → Fm m v = .ok v' → evalArg ρ' b v' = evalArg ρ b v ∧ evalNum ρ' b v' = evalNum ρ b v)
+    {c c' : Circuit} {regs : List Val} {body : List Stmt} (hr : Rebuilt F Fm G c regs body c')
     (hbody : c.body = .block false false (.int 1) body) (hB : BlocksOKList body) (hP : AllValsList P body)
     (hms : ∀ m ∈ c.macros, BlocksOK m.body ∧ AllVals P m.body) : meaning ρ' c' = meaning ρ c := by
   obtain ⟨ss, hc', hrel⟩ := hr.body
-  have hmd : denoteMacros ρ' c'.macros = denoteMacros ρ c.macros := denoteMacros_rel hF hG hr.macros hms []
+  have hmd : denoteMacros ρ' c'.macros = denoteMacros ρ c.macros := denoteMacros_rel hF hG hFm hr.macros hms []
   have e1 : evalInt ρ' [] (Val.int 1) = evalInt ρ [] (Val.int 1) := rfl
   simp only [meaning, hmd, hc', hbody, evalStmt, Rel_evalStmts hF hG _ body ss [] hrel hB hP, e1]
 
